@@ -744,7 +744,8 @@ class SwitchEndian(Unary):
             opcode = Opcode.LE
         elif endian in ">!":
             opcode = Opcode.BE
-        self.ebpf.append(opcode, dst, 0, 0, calcsize(size) * 8)
+        if calcsize(size) > 1:  # a single byte has no byte order
+            self.ebpf.append(opcode, dst, 0, 0, calcsize(size) * 8)
 
 
 class Sum(Binary):
